@@ -154,6 +154,8 @@ def run_decoder_stream(ctx, rt, name, strings, table_name, table, flags="-", jud
 
 
 def judge_C01(ctx):
+    counter = [0]
+
     def judge(s, r, table_name, table):
         if not r.startswith("ok\t"):
             return
@@ -161,15 +163,22 @@ def judge_C01(ctx):
         why = oracles.check_decoder_output(out, sf.get_semantic_constraints())
         if out:
             ctx.distinct.add(out)
+        counter[0] += 1
+        mol = None
+        if why is not None or counter[0] % 7 == 0:
+            # does the independent reader recover the graph the decoder built?  (writer-level oracle)
+            mol = impl.real_decode_graph(s)
+            if mol is not None and why is None:
+                why2 = oracles.graph_matches_reader(mol, out)
+                if why2 is not None:
+                    why = "writer: " + why2
         if why is not None:
             sig = "C01:" + why.split(":")[0]
-            if why == "ring-label>99":
-                # narrow signature of finding F1: labels >= 100 appear exactly because the molecule has
-                # more than 99 ring bonds and labels are never recycled
-                import re as _re
-                labels = _re.findall(r"%\d\d\d|%\d\d|\d", _re.sub(r"\[[^\]]*\]", "", out))
-                sig = "C01:ring-label>99" if len(labels) // 2 > 99 else "C01:ring-label-illegal"
-            add_violation(ctx, sig, "decoder output is not a valid SMILES under the table: " + why,
+            if why.split(":")[0] in ("syntax", "writer") and mol is not None and impl.ring_bond_count(mol) > 99:
+                # narrow signature of finding F1: the molecule has more than 99 ring bonds, labels are never
+                # recycled, so the writer prints %100, %101, ... (which a SMILES reader reads as %10 0, %10 1, ...)
+                sig = "C01:ring-label>99"
+            add_violation(ctx, sig, "decoder output is not a valid SMILES (of the molecule the decoder built) under the table: " + why,
                           selfies=s, table=table, output=out)
     return judge
 
